@@ -78,7 +78,9 @@ class TC(fm.TimeComponent):
         super().__init__()
         self.idx, self.spec, self.nin, self.nout, self.tr = idx, spec, nin, nout, trace
         self._name = f"C{idx}"
-        self._time = TH(spec["start"])
+        # "late_time": the component only learns its time during connect (as e.g. a reader that opens its file
+        # there); before that `time` is None, which the SDK allows in the CREATED / INITIALIZED states
+        self._time = None if spec.get("late_time") else TH(spec["start"])
         self.k = 0
         self.tr.calls[idx] = []
 
@@ -99,13 +101,15 @@ class TC(fm.TimeComponent):
     def _initialize(self):
         self.tr.calls[self.idx].append("initialize")
         for i in range(self.nin):
-            self.inputs.add(name=f"In{i}", time=self.time, grid=fm.NoGrid(), units="")
+            self.inputs.add(name=f"In{i}", time=TH(self.spec["start"]), grid=fm.NoGrid(), units="")
         for o in range(self.nout):
-            self.outputs.add(name=f"Out{o}", time=self.time, grid=fm.NoGrid(), units="")
+            self.outputs.add(name=f"Out{o}", time=TH(self.spec["start"]), grid=fm.NoGrid(), units="")
         self.create_connector()
 
     def _connect(self, start_time):
         self.tr.calls[self.idx].append("connect")
+        if self._time is None:
+            self._time = TH(self.spec["start"])
         self.try_connect(start_time, push_data={f"Out{o}": self.value(self.time) + 0.5 * o for o in range(self.nout)})
 
     def _validate(self):
